@@ -132,3 +132,12 @@ Theorem C05_src_apply_structure :
   OptGen.fuse_groups_larger_than = 1%N /\ OptGen.optimize_final_sort = "id"%string.
 Proof. exact Struct_Opt_Proofs.apply_structure_is_model. Qed.
 Print Assumptions C05_src_apply_structure.
+
+(* NetworkFilterList::optimize, bucket by bucket, from the extracted steps: it IS fl_optimize *)
+Theorem C05_src_fl_optimize_is_model :
+  forall m : fmap,
+  map (fun kb => match Struct_Opt_Proofs.interp_bucket m (snd kb) with
+                 | Some b => Some (fst kb, b) | None => None end) m
+  = map Some (fl_optimize m).
+Proof. exact Struct_Opt_Proofs.interp_fl_optimize_is_model. Qed.
+Print Assumptions C05_src_fl_optimize_is_model.
